@@ -3,6 +3,8 @@
 // go to stderr and set the exit code (TSAN_OPTIONS exitcode=66).
 #include "../wb_util.h"
 
+#include "world_builder/wrapper_c.h"
+
 #include <atomic>
 #include <thread>
 
@@ -17,6 +19,18 @@ static std::vector<double> run(const WB::World &w, const J &s)
       return {d.get_distance_from_surface(), d.get_distance_along_surface()};
     }
   const PropList pl = props_from(s.at("props"));
+  if (s.has("via_c") && s.at("via_c").boolean())
+    {
+      // the same request through the C interface (the handle it takes is the address of the world)
+      std::vector<unsigned int> flat;
+      for (auto &p : pl) { flat.push_back(p[0]); flat.push_back(p[1]); flat.push_back(p[2]); }
+      const unsigned int (*cprops)[3] = reinterpret_cast<const unsigned int (*)[3]>(flat.data());
+      void *handle = const_cast<WB::World *>(&w);
+      std::vector<double> out(properties_output_size(handle, cprops, static_cast<unsigned>(pl.size())));
+      if (s.at("dim").num() == 2) { const auto q = p2(s.at("q").at("p2")); properties_2d(handle, q[0], q[1], s.at("q").at("depth").num(), cprops, static_cast<unsigned>(pl.size()), out.data()); }
+      else { const auto q = p3(s.at("q").at("p")); properties_3d(handle, q[0], q[1], q[2], s.at("q").at("depth").num(), cprops, static_cast<unsigned>(pl.size()), out.data()); }
+      return out;
+    }
   if (s.at("dim").num() == 2) return w.properties(p2(s.at("q").at("p2")), s.at("q").at("depth").num(), pl);
   return w.properties(p3(s.at("q").at("p")), s.at("q").at("depth").num(), pl);
 }
